@@ -295,6 +295,11 @@ func execInto(t *testing.T, plan *Plan, orc Oracle, dst **World) {
 		*dst = w
 		w.FS = NewSimFS(time.Duration(plan.GranNs))
 		time.Local = loadTZ(plan.TZ)
+		if plan.Meta["debuglog"] != "" {
+			// -d: every log statement formats its arguments (into a discarding writer)
+			logging.Initialize(logging.LevelDebug, io.Discard, io.Discard)
+			defer logging.Initialize(logging.LevelNone, io.Discard, io.Discard)
+		}
 		start := time.Now()
 		if plan.Clock0 > 0 {
 			time.Sleep(time.Duration(plan.Clock0) * time.Second)
